@@ -33,7 +33,7 @@ CcAny(ks, d, id) ==
 CcXor(ks, d, id) ==
   LET al == MkAtLeast(1, ks, "", 0, "AtLeast")
       am == MkAtLeast(-1, ks, "", -1, "AtMost")
-      al2 == IF d = "" THEN al ELSE [CcAny(ks, d, al.id) EXCEPT !.gen = FALSE]
+      al2 == IF d = "" THEN al ELSE [CcAny(ks, d, al.id) EXCEPT !.gen = TRUE]
   IN WithDflt(MkAtLeast(2, << al2, am >>, id, 0, "Xor"), d)
 
 RECURSIVE Mk(_)
